@@ -32,7 +32,8 @@ new = object.__new__
 def convert_mpf_(x, prec, rounding):
     # (a lazy constant of the mp context has no value of its own: it is
     # evaluated here, in the requested direction)
-    if isinstance(x, _constant) and prec: return x.func(prec, rounding)
+    if isinstance(x, _constant) and prec and not x.contextual:
+        return x.func(prec, rounding)
     if hasattr(x, "_mpf_"): return x._mpf_
     if isinstance(x, int_types): return from_int(x, prec, rounding)
     if isinstance(x, float): return from_float(x, prec, rounding)
